@@ -25,6 +25,7 @@ func init() {
 		EnumRule: "obligations per rule and construct",
 		Assumptions: []string{"that the structure R7 decides implements the x86-64 recursive-mapping scheme is the standard argument and is not mechanised; 'other pages unchanged' is not decided"},
 		Controls: []Control{
+			{Name: "identity page count as last page index plus one", File: "kernel/mm/vmm/map.go", Old: "\tpageCount := mm.Page(((size + (mm.PageSize - 1)) & ^(mm.PageSize - 1)) >> mm.PageShift)\n", New: "\tpageCount := mm.Page((size-1)>>mm.PageShift) + 1\n", Expect: "C04.R6"},
 			{Name: "delete *pte = 0 at the leaf", File: "kernel/mm/vmm/map.go", Old: "\t\t\t*pte = 0\n\t\t\tpte.SetFrame(frame)\n", New: "\t\t\tpte.SetFrame(frame)\n", Expect: "C04.R1"},
 			{Name: "delete the flush in Unmap", File: "kernel/mm/vmm/map.go", Old: "\t\t\tpte.ClearFlags(FlagPresent)\n\t\t\tflushTLBEntryFn(page.Address())\n", New: "\t\t\tpte.ClearFlags(FlagPresent)\n", Expect: "C04.R2"},
 			{Name: "delete the restore block in PDT.Map", File: "kernel/mm/vmm/pdt.go",
@@ -215,7 +216,7 @@ func (x *c04) r1r2r4r5() {
 			}
 			// the address of the page: page << PageShift, however it is spelled
 			zf := &Polyizer{}
-			return zf.Of(g.callArgs(n)[0]).equal(zf.Of(pageP).mul(polyConst(int64(x.pageSize))))
+			return zf.Of(through(g.callArgs(n)[0])).equal(zf.Of(pageP).mul(polyConst(int64(x.pageSize))))
 		}
 		bad = ""
 		for _, wn := range writes {
